@@ -20,14 +20,14 @@ from liesel.goose.kernel_sequence import KernelSequence
 
 PROPERTY = "C12"
 RULE = ("cases = (kernel NUTS|HMC, mm_diag, subset of keys {a:(2,), b:(), c:(2,2), d:()} in a generated listing order, 1-3 slow epochs of "
-        "100-140 iterations interleaved with fast / burn-in epochs, co-existing RW kernel yes/no, seed); non-trivial = listing order differs "
+        "100-140 iterations (or, half of the cases, 20-100 iterations thinned by 1-50 so that 2-100 draws are recorded, with fast epochs of 20-60) interleaved with fast / burn-in epochs, co-existing RW kernel yes/no, seed); non-trivial = listing order differs "
         "from sorted order and >= 2 keys (coordinates always have different variances); distinct = SHA-1 of the case")
 ASSUMPTIONS = [
     "expected matrix = sample variance (ddof=1) / covariance of the epoch's recorded history + regulariser; accepted within 15% + 2e-3 so that "
     "a different regulariser (e.g. Stan's shrinkage) passes while a permutation (coordinate scales differ by up to 100x) cannot",
     "flat coordinate order is that of jax.flatten_util.ravel_pytree on the kernel's position (what blackjax uses)",
 ]
-SHARDS = {"quick": 12, "thorough": 16}
+SHARDS = {"quick": 16, "thorough": 16}
 TECHNIQUE = ("Hypothesis-generated key orders / shapes / schedules; oracle = float64 sample (co)variance of the recorded epoch history per "
              "flat coordinate; metamorphic relation: permuting position_keys leaves chains and tuned matrices bit-identical")
 LEVEL_TEXT = ("Generated-configuration testing with an independent oracle computed from the engine's own recorded history, plus a "
@@ -76,12 +76,18 @@ def gen():
         keys = list(draw(st.permutations(sorted(SHAPES))))[:nk]
         n_slow = draw(st.integers(1, 3))
         epochs = [[0, 1, 1]]
+        short = draw(st.booleans())       # short / thinned slow epochs: few recorded draws, and slow epochs as long as an earlier fast epoch
         if draw(st.booleans()):
-            epochs.append([1, 20, 1])
+            epochs.append([1, draw(st.sampled_from([20, 40, 60])) if short else 20, 1])
         for i in range(n_slow):
-            epochs.append([2, 20 * draw(st.integers(5, 7)), 1])
+            if short:
+                dur = draw(st.sampled_from([20, 40, 60, 100] + 6 * [e[1] for e in epochs if e[0] in (1, 3)]))
+                thin = draw(st.sampled_from([1, 1, 1, 5, 10, dur // 2, dur // 4]))
+            else:
+                dur, thin = 20 * draw(st.integers(5, 7)), 1
+            epochs.append([2, dur, thin])
             if draw(st.booleans()):
-                epochs.append([draw(st.sampled_from([1, 3])), 20, 1])
+                epochs.append([draw(st.sampled_from([1, 3])), draw(st.sampled_from([20, 40])) if short else 20, 1])
         epochs.append([4, 20, 1])
         return {"kernel": draw(st.sampled_from(["nuts", "hmc"])), "diag": draw(st.booleans()), "keys": keys, "epochs": epochs,
                 "other": draw(st.booleans()), "seed": draw(st.integers(0, 2**20)), "perm_seed": draw(st.integers(0, 23)),
@@ -124,14 +130,18 @@ def oracle(c):
     pos = res.get_samples()
     det0 = f"{c}"
     flat_keys = sorted(keys)
-    t = 1                                                       # index into stored positions / kernel states (0 = initial)
+    t = 1                                                       # index into stored kernel states (never thinned; 0 = initial)
+    tp = 1                                                      # index into stored positions (thinned: iterations 0, th, 2 th, ... of each epoch)
     n_checked = 0
-    for ei, (typ, dur, _) in enumerate(c["epochs"]):
+    few = False
+    for ei, (typ, dur, thin) in enumerate(c["epochs"]):
         if ei == 0:
             continue
+        rec = -(-dur // thin)
         if typ == 2:
+            few = few or rec <= 5
             for ch in range(2):
-                H = np.concatenate([np.asarray(pos[k])[ch, t:t + dur].reshape(dur, -1).astype(np.float64) for k in flat_keys], axis=1)
+                H = np.concatenate([np.asarray(pos[k])[ch, tp:tp + rec].reshape(rec, -1).astype(np.float64) for k in flat_keys], axis=1)
                 got = imm[ch, t + dur]                           # first kernel state of the next epoch = after tuning
                 before = imm[ch, t + dur - 1]
                 if c["diag"]:
@@ -164,6 +174,10 @@ def oracle(c):
                 if t + dur < imm.shape[1]:
                     require(np.array_equal(imm[ch, t + dur], imm[ch, t]), "inverse-mass-matrix:changed-outside-slow-adaptation", f"epoch #{ei} type {typ}; {det0}")
         t += dur
+        tp += rec
+    n_pos = np.asarray(pos[flat_keys[0]]).shape[1]
+    if tp != n_pos or t != imm.shape[1]:
+        raise RuntimeError(f"harness: stored-length bookkeeping is off: positions {n_pos} vs {tp}, kernel states {imm.shape[1]} vs {t}; {det0}")
     # metamorphic: any other listing order of the same keys gives bit-identical chains and matrices
     nt = False
     if len(keys) >= 2:
@@ -176,10 +190,13 @@ def oracle(c):
         nt = keys != sorted(keys) or other != sorted(other)
     return {"nt": bool(nt and n_checked), "cls": [c["kernel"], "diag" if c["diag"] else "dense", f"keys{len(keys)}",
                                                    "sorted" if keys == sorted(keys) else "unsorted", "other" if c["other"] else "alone",
-                                                   f"slow{sum(1 for e in c['epochs'] if e[0] == 2)}", "offset" if c.get("offset") else "centred"]}
+                                                   f"slow{sum(1 for e in c['epochs'] if e[0] == 2)}", "offset" if c.get("offset") else "centred",
+                                                   "few-draws" if few else "many-draws",
+                                                   "slow-as-long-as-earlier-fast" if any(e[0] == 2 and any(f[0] in (1, 3) and -(-f[1] // f[2]) == -(-e[1] // e[2]) for f in c["epochs"][:i])
+                                                                                       for i, e in enumerate(c["epochs"])) else "slow-lengths-unique"]}
 
 
 SUBS = [
-    Sub("alignment", oracle, gen=gen, n={"quick": 24, "thorough": 400}, shrink_calls=10, min_per_shard=2,
+    Sub("alignment", oracle, gen=gen, n={"quick": 32, "thorough": 400}, shrink_calls=10, min_per_shard=2,
         what="tuned inverse mass matrix vs per-coordinate sample (co)variance of the recorded slow-epoch history; key-order invariance"),
 ]
